@@ -17,6 +17,7 @@ const (
 // meaningful depends on K:
 //
 //	int tspan strsz coll     Lo Hi
+//	tstamp                   Lo NLo Hi NHi   (seconds since 0001-01-01T00:00:00Z = time.Time's internal epoch, and nanoseconds 0..999999999)
 //	flt                      FLo FHi
 //	bool                     B  (-1 = n, 1 = t, 0 = f)
 //	strval rx                S[0]
@@ -32,6 +33,7 @@ const (
 type Ty struct {
 	K        string
 	Lo, Hi   int64
+	NLo, NHi int64
 	FLo, FHi float64
 	B        int
 	CI       bool
@@ -51,12 +53,13 @@ type Member struct {
 
 // Val is a value term (doc.go, "Value terms").
 //
-//	b      B            i ts   I          f   F          s rxv binv   S
+//	b      B            i ts   I          f   F          s rxv binv   S          tsv  I (seconds since year 1) I2 (nanoseconds)
 //	a      Vs           h      Es         sv  Vs[0]      t   T        o   Path
 type Val struct {
 	K    string
 	B    bool
 	I    int64
+	I2   int64
 	F    float64
 	S    string
 	Vs   []Val
@@ -78,6 +81,17 @@ func Int(lo, hi int64) Ty   { return Ty{K: "int", Lo: lo, Hi: hi} }
 func Flt(lo, hi float64) Ty { return Ty{K: "flt", FLo: lo, FHi: hi} }
 func Bool(b int) Ty         { return Ty{K: "bool", B: b} }
 func Tspan(lo, hi int64) Ty { return Ty{K: "tspan", Lo: lo, Hi: hi} }
+
+// TsEpoch: seconds from time.Time's internal epoch (year 1) to the Unix epoch; TsMaxSec / TsMaxNs: types.MaxTime in these units.
+const (
+	TsEpoch  = 62135596800
+	TsMaxSec = MaxI
+	TsMaxNs  = 999999999
+)
+
+// Tstamp is Timestamp[min,max]: bounds as (seconds since year 1, nanoseconds).  (tstamp 0 0 MaxI 999999999) is the default Timestamp.
+func Tstamp(slo, nlo, shi, nhi int64) Ty { return Ty{K: "tstamp", Lo: slo, NLo: nlo, Hi: shi, NHi: nhi} }
+func TstampAll() Ty                      { return Tstamp(0, 0, TsMaxSec, TsMaxNs) }
 
 // StrSz builds String[lo,hi]; String[0,max] IS the default String (NewStringType normalises it), so it is the atom `str`.
 func StrSz(lo, hi int64) Ty {
@@ -130,6 +144,7 @@ func VS(s string) Val      { return Val{K: "s", S: s} }
 func VRx(s string) Val     { return Val{K: "rxv", S: s} }
 func VBin(s string) Val    { return Val{K: "binv", S: s} }
 func VTs(n int64) Val      { return Val{K: "ts", I: n} }
+func VTsv(s, n int64) Val  { return Val{K: "tsv", I: s, I2: n} }
 func VA(vs ...Val) Val     { return Val{K: "a", Vs: vs} }
 func VH(es ...Entry) Val   { return Val{K: "h", Es: es} }
 func VSens(v Val) Val      { return Val{K: "sv", Vs: []Val{v}} }
@@ -192,6 +207,8 @@ func (t Ty) Sexp() sx.Sexp {
 	switch t.K {
 	case "int", "tspan", "strsz", "coll":
 		return sx.T(t.K, sx.Int(t.Lo), sx.Int(t.Hi))
+	case "tstamp":
+		return sx.T("tstamp", sx.Int(t.Lo), sx.Int(t.NLo), sx.Int(t.Hi), sx.Int(t.NHi))
 	case "flt":
 		return sx.T("flt", FloatSexp(t.FLo), FloatSexp(t.FHi))
 	case "bool":
@@ -245,6 +262,8 @@ func (v Val) Sexp() sx.Sexp {
 		return sx.T("b", sx.Bool(v.B))
 	case "i", "ts":
 		return sx.T(v.K, sx.Int(v.I))
+	case "tsv":
+		return sx.T("tsv", sx.Int(v.I), sx.Int(v.I2))
 	case "f":
 		return sx.T("f", FloatSexp(v.F))
 	case "s", "rxv", "binv":
@@ -388,6 +407,19 @@ func ParseTy(e sx.Sexp) (Ty, error) {
 		}
 		t := Ty{K: tag}
 		t.Lo, t.Hi, err = range2(a, 0)
+		return t, err
+	case "tstamp":
+		if err = arity(e, 4); err != nil {
+			return Ty{}, err
+		}
+		t := Ty{K: tag}
+		if t.Lo, t.NLo, err = range2(a, 0); err != nil {
+			return Ty{}, err
+		}
+		t.Hi, t.NHi, err = range2(a, 2)
+		if err == nil && (t.NLo < 0 || t.NLo > TsMaxNs || t.NHi < 0 || t.NHi > TsMaxNs) {
+			err = fmt.Errorf("nanoseconds out of range")
+		}
 		return t, err
 	case "flt":
 		if err = arity(e, 2); err != nil {
@@ -539,6 +571,15 @@ func ParseVal(e sx.Sexp) (Val, error) {
 		}
 		n, err := a[0].AsInt()
 		return Val{K: tag, I: n}, err
+	case "tsv":
+		if err := arity(e, 2); err != nil {
+			return Val{}, err
+		}
+		s, n, err := range2(a, 0)
+		if err == nil && (n < 0 || n > TsMaxNs) {
+			err = fmt.Errorf("nanoseconds out of range")
+		}
+		return Val{K: tag, I: s, I2: n}, err
 	case "f":
 		if err := arity(e, 1); err != nil {
 			return Val{}, err
